@@ -301,7 +301,7 @@ def _random(wd, tier, rep, acc, lock):
     trace = os.path.join(wd, "random.ndjson")
     n = RANDOM[tier]
     vlib.run_harness(PKG, ["random", "--n", str(n), "--out", trace])
-    rejects, judged, opened, multi, st, tr = _validate(trace, 6, TIMEOUT[tier])
+    rejects, judged, opened, multi, st, tr = _validate(trace, 4 if tier == "quick" else 8, TIMEOUT[tier])
     with lock:
         _report_rejects(rep, rejects, "random")
         with open(trace) as f:
@@ -323,7 +323,7 @@ def _samples(wd, tier, rep, acc, lock):
             with open(p) as f:
                 out.write(f.read())
             os.remove(p)
-    rejects, judged, opened, multi, st, tr = _validate(trace, 4, TIMEOUT[tier])
+    rejects, judged, opened, multi, st, tr = _validate(trace, 2 if tier == "quick" else 6, TIMEOUT[tier])
     _report_rejects(rep, rejects, "sample")
     acc["sampled"] = {"judged": judged, "open": opened, "more_than_one_allowed_outcome": multi, "rejected": len(rejects)}
     acc["states"] += st
